@@ -385,10 +385,31 @@ Section NormProofs.
     Qed.
 
     Lemma packed_pairs ext sep known p :
-      In p (match_pairs norm ext sep true known P) <-> In p (match_pairs norm ext sep false known D).
+      In p (match_pairs norm ext sep true known None P) <-> In p (match_pairs norm ext sep false known None D).
     Proof.
       unfold match_pairs, content, P, D. cbn [s_tar s_files].
       destruct known as [kn|]; [rewrite !filter_In|]; rewrite (In_pairs_all ext sep _ _ packed_keys_In p); reflexivity.
+    Qed.
+
+    (* restricted by a pairs file: the archive route filters the stored pairs, the directory route tests each line for a file *)
+    Lemma packed_pairs_pairsfile ext sep known lines p :
+      (forall n q, In n (keys dir) -> has_ext ext n = true -> In q (pair_of ext sep n) -> norm (pair_fname ext sep q) = n) ->
+      (forall q, In q (map ordered lines) ->
+         norm (pair_fname ext sep q) = pair_fname ext sep q /\ has_ext ext (pair_fname ext sep q) = true /\
+         pair_of ext sep (pair_fname ext sep q) = [q]) ->
+      In p (match_pairs norm ext sep true known (Some lines) P) <-> In p (match_pairs norm ext sep false known (Some lines) D).
+    Proof.
+      intros H1 H2.
+      assert (E : In p (List.filter (fun q => memb q (map ordered lines)) (pairs_all ext sep (keys (view members)))) <->
+                  In p (List.filter (fun q => mem (norm (pair_fname ext sep q)) dir) (map ordered lines))).
+      { rewrite !filter_In, memb_In. unfold pairs_all. rewrite in_flat_map. split.
+        - intros [[n [I Q]] V]. split; [assumption|]. apply filter_In in I. destruct I as [I F].
+          apply packed_keys_In in I. rewrite (H1 n p I F Q). apply mem_In_keys. exact I.
+        - intros [V M]. split; [|assumption]. destruct (H2 p V) as [N [F Q]]. rewrite N in M.
+          exists (pair_fname ext sep p). split; [|rewrite Q; left; reflexivity].
+          apply filter_In. split; [|assumption]. apply packed_keys_In. apply mem_In_keys. exact M. }
+      unfold match_pairs, content, uses_tar, P, D. cbn [s_tar s_files]. cbv beta iota zeta.
+      destruct known as [kn|]; [rewrite !(filter_In (fun q => memb (fst q) kn && memb (snd q) kn))|]; rewrite E; reflexivity.
     Qed.
   End Packed.
 
